@@ -56,7 +56,7 @@ def run(ctx):
                     {"kind": p["kind"], "entry": p["entry"]})
     ctx.coverage.update(sweep_targets=sw["targets"], sweep_seed_encodings=sw["seeds"], sweep_inputs=sw["inputs"], sweep_by_entry=sw["by_entry"])
     # live multiplexers: junk / malformed / bit-flipped transaction bytes through DeliverTx (every call under recover())
-    lines, sums = cc.run_scenarios(ctx, [ctx.seed * 1000 + 900 + i for i in range(3 if q else 24)], 120 if q else 300)
+    lines, sums = cc.run_scenarios(ctx, [ctx.seed * 1000 + 900 + i for i in range(3 if q else 24)], 120 if q else 300, halt_ok=True)
     t = cc.totals(sums)
     hostile = sum(v for k, v in t["tx_kinds"].items() if k.endswith((":junk", ":malformed", ":badsig", ":wrongchain", ":wrongdomain", ":missingsig")))
     for sm in sums:
